@@ -236,6 +236,7 @@ impl Isolated {
 struct Shared {
     next: Mutex<u64>,
     limit: u64, // exclusive upper bound on indexes (quick); u64::MAX for time-budgeted
+    chunk: u64,
     deadline: Option<Instant>,
     stop: AtomicBool,
     results: Mutex<Collected>,
@@ -254,12 +255,37 @@ struct Collected {
     runs_done: u64,
     worker_restarts: u64,
     sig_counts: BTreeMap<String, u64>,
+    known_counts: BTreeMap<String, u64>,
 }
 
-const CHUNK: u64 = 128;
+
 const AUDIT_STRIDE: u64 = 50;
 
-fn worker_loop(shared: Arc<Shared>, wd: Arc<Watchdog>, prop: String, tier: Tier, master: u64, audit: Option<Arc<Mutex<Vec<u64>>>>) {
+fn is_known(known: &[known::Known], prop: &str, tier: Tier, master: u64, index: u64, v: &Violation) -> bool {
+    if known.is_empty() {
+        return false;
+    }
+    let spec = props::gen(prop, crate::run_seed(master, prop, index), tier);
+    known::matches(known, v, &spec).is_some()
+}
+
+fn record_violation(g: &mut Collected, known: &[known::Known], prop: &str, tier: Tier, master: u64, i: u64, v: Violation) {
+    if is_known(known, prop, tier, master, i, &v) {
+        let c = g.known_counts.entry(v.sig()).or_default();
+        *c += 1;
+        if *c <= 1 {
+            g.violations.push((i, v));
+        }
+        return;
+    }
+    let c = g.sig_counts.entry(v.sig()).or_default();
+    *c += 1;
+    if *c <= 4 {
+        g.violations.push((i, v));
+    }
+}
+
+fn worker_loop(shared: Arc<Shared>, wd: Arc<Watchdog>, prop: String, tier: Tier, master: u64, audit: Option<Arc<Mutex<Vec<u64>>>>, known: Arc<Vec<known::Known>>) {
     let mut proc_: Option<Proc> = None;
     loop {
         if shared.stop.load(Ordering::SeqCst) {
@@ -282,11 +308,14 @@ fn worker_loop(shared: Arc<Shared>, wd: Arc<Watchdog>, prop: String, tier: Tier,
                 break;
             }
             let s = *g;
-            let e = (s + CHUNK).min(shared.limit);
+            let e = (s + shared.chunk).min(shared.limit);
             *g = e;
             (s, e)
         };
         while start < end {
+            if shared.stop.load(Ordering::SeqCst) {
+                break;
+            }
             if proc_.is_none() {
                 match Proc::spawn() {
                     Ok(p) => {
@@ -359,11 +388,7 @@ fn worker_loop(shared: Arc<Shared>, wd: Arc<Watchdog>, prop: String, tier: Tier,
                     }
                     if audit.is_none() {
                         if let Some(v) = v {
-                            let c = g.sig_counts.entry(v.sig()).or_default();
-                            *c += 1;
-                            if *c <= 4 {
-                                g.violations.push((i, v));
-                            }
+                            record_violation(&mut g, &known, &prop, tier, master, i, v);
                         }
                     }
                 }
@@ -372,6 +397,9 @@ fn worker_loop(shared: Arc<Shared>, wd: Arc<Watchdog>, prop: String, tier: Tier,
                 // worker died in the middle of run `current`
                 let (kind, site, msg) = proc_.as_mut().unwrap().death();
                 proc_ = None;
+                if std::env::var("VERIF_DEBUG").is_ok() {
+                    eprintln!("[driver] worker died during run {:?}: {} {} {}", current, kind, site, msg);
+                }
                 let mut g = shared.results.lock().unwrap();
                 g.worker_restarts += 1;
                 match current {
@@ -379,11 +407,7 @@ fn worker_loop(shared: Arc<Shared>, wd: Arc<Watchdog>, prop: String, tier: Tier,
                         g.runs_done += 1;
                         if audit.is_none() {
                             let v = Violation::new(&prop, &kind, site, msg);
-                            let c = g.sig_counts.entry(v.sig()).or_default();
-                            *c += 1;
-                            if *c <= 4 {
-                                g.violations.push((i, v));
-                            }
+                            record_violation(&mut g, &known, &prop, tier, master, i, v);
                         }
                         start = i + 1;
                     }
@@ -397,7 +421,8 @@ fn worker_loop(shared: Arc<Shared>, wd: Arc<Watchdog>, prop: String, tier: Tier,
             // enough evidence of one failure: stop exploring (keeps defect trees from costing minutes)
             {
                 let g = shared.results.lock().unwrap();
-                if g.sig_counts.values().any(|c| *c >= 64) || g.sig_counts.len() >= 12 {
+                let slow = g.sig_counts.iter().any(|(k, c)| (k.contains("/watchdog/") || k.contains("/no-progress/")) && *c >= 4);
+                if slow || g.sig_counts.values().any(|c| *c >= 64) || g.sig_counts.len() >= 12 {
                     shared.stop.store(true, Ordering::SeqCst);
                 }
             }
@@ -495,12 +520,14 @@ pub fn check(prop: &str, tier: Tier) -> i32 {
         Tier::Thorough => (env_u64("VERIF_MAX_RUNS", u64::MAX / 4), Some(Instant::now() + Duration::from_secs(env_u64("VERIF_BUDGET_S", 300)))),
     };
     println!("simctl check {} {} VERIF_SEED={} workers={}", prop, tier.name(), master, workers);
-    let shared = Arc::new(Shared { next: Mutex::new(0), limit, deadline, stop: AtomicBool::new(false), results: Mutex::new(Collected::default()) });
+    let chunk = if limit < u64::MAX / 8 { (limit / (workers as u64 * 6)).clamp(1, 128) } else { props::thorough_chunk(prop) };
+    let shared = Arc::new(Shared { next: Mutex::new(0), limit, chunk, deadline, stop: AtomicBool::new(false), results: Mutex::new(Collected::default()) });
     let wd = Arc::new(Watchdog::start(env_u64("VERIF_WATCHDOG_S", 20)));
+    let known_arc = Arc::new(known.clone());
     let mut hs = vec![];
     for _ in 0..workers {
-        let (s, w, p) = (shared.clone(), wd.clone(), prop.to_string());
-        hs.push(std::thread::spawn(move || worker_loop(s, w, p, tier, master, None)));
+        let (s, w, p, k) = (shared.clone(), wd.clone(), prop.to_string(), known_arc.clone());
+        hs.push(std::thread::spawn(move || worker_loop(s, w, p, tier, master, None, k)));
     }
     for h in hs {
         let _ = h.join();
@@ -526,8 +553,8 @@ pub fn check(prop: &str, tier: Tier) -> i32 {
         let aw = workers.min(8).max(1);
         let mut hs = vec![];
         for _ in 0..aw {
-            let (s, w, p, l) = (shared.clone(), wd.clone(), prop.to_string(), list.clone());
-            hs.push(std::thread::spawn(move || worker_loop(s, w, p, tier, master, Some(l))));
+            let (s, w, p, l, k) = (shared.clone(), wd.clone(), prop.to_string(), list.clone(), known_arc.clone());
+            hs.push(std::thread::spawn(move || worker_loop(s, w, p, tier, master, Some(l), k)));
         }
         for h in hs {
             let _ = h.join();
@@ -583,6 +610,19 @@ pub fn check(prop: &str, tier: Tier) -> i32 {
     }
     drop(iso);
 
+    // C18's statement includes "writing the same game twice gives identical bytes": for that
+    // property an output that differs between two worker processes is a violation, not a harness error
+    if prop == "C18" {
+        let mism: Vec<String> = col.harness_errors.iter().filter(|e| e.starts_with("determinism audit")).cloned().collect();
+        if let Some(first) = mism.first() {
+            let idx: u64 = first.split_whitespace().nth(5).and_then(|x| x.parse().ok()).unwrap_or(0);
+            let spec = props::gen(prop, crate::run_seed(master, prop, idx), tier);
+            let v = Violation::new(prop, "nondeterministic-output", "across-processes", first.clone());
+            let path = write_replay(prop, tier, master, idx, &spec, &spec, &v, None);
+            findings.push(Finding { index: idx, violation: v, replay_path: path, known: None, minimised_frames: spec.recorder.frames.len(), candidates_tried: 0 });
+            col.harness_errors.retain(|e| !e.starts_with("determinism audit"));
+        }
+    }
     let unknown: Vec<&Finding> = findings.iter().filter(|f| f.known.is_none()).collect();
     let wall = t0.elapsed().as_secs_f64();
 
@@ -602,7 +642,7 @@ pub fn check(prop: &str, tier: Tier) -> i32 {
         "seed": master as i64,
         "level": meta.level,
         "coverage": {
-            "evaluations": agg.runs,
+            "evaluations": agg.runs.max(runs_main),
             "distinct_nontrivial": col.shapes_nontrivial.len(),
             "rule": meta.rule,
             "samples": samples,
@@ -625,6 +665,7 @@ pub fn check(prop: &str, tier: Tier) -> i32 {
             "determinism_audit": {"rechecked": if early_stop { 0 } else { audited }, "mismatches": col.harness_errors.iter().filter(|e| e.starts_with("determinism audit")).count()},
             "worker_restarts": col.worker_restarts,
             "stopped_early_on_violations": early_stop,
+            "known_finding_hits": col.known_counts,
             "workers": workers,
             "findings": findings.iter().map(|f| json!({
                 "run_index": f.index, "kind": f.violation.kind, "site": f.violation.site, "message": f.violation.message,
